@@ -31,7 +31,9 @@ static op_t* ops[3];
 extern "C" void h_setup() {
   ctx = new timed_single_thread_context();
   NT_ = (int)vf_param(0);
-  for (int i = 0; i < NT_; ++i) { ss[i] = new inplace_stop_source(); due[i] = nondet_u8(); }
+  // due times: arbitrary 8-bit values, or (parameter 3) one of {0,16,32,48} each - all orderings and ties, but enumerable, so the
+  // seconds/nanoseconds split of the deadline is evaluated per alternative instead of being bit-blasted
+  for (int i = 0; i < NT_; ++i) { ss[i] = new inplace_stop_source(); due[i] = vf_param(3) ? 16L * (long)vf_enum(nondet_u8(), 4) : (long)nondet_u8(); }
 }
 extern "C" void h_worker() { vf_thread_body(0); }
 extern "C" void h_main() {
